@@ -21,6 +21,7 @@ from ..qm.oscillators.ho import operator_factory
 from ..qm.hilbertspace.operators import Operator
 from ..qm.hilbertspace.operators import DensityMatrix
 from ..qm.hilbertspace.operators import ReducedDensityMatrix
+from ..qm.hilbertspace.operators import BasisReferenceOperator
 from ..qm.hilbertspace.statevector import StateVector
 from ..qm.propagators.dmevolution import DensityMatrixEvolution
 from ..qm.propagators.dmevolution import ReducedDensityMatrixEvolution
@@ -1491,6 +1492,9 @@ class AggregateBase(UnitsManaged, Saveable, OpenSystem):
         self.HH = HH
         # Hamiltonian operator
         self.HamOp = Hamiltonian(data=HH)
+        # an operator which is diagonal in the site basis: its basis context
+        # leads to the site basis from inside any other basis context
+        self._site_basis_op = BasisReferenceOperator(dim=HH.shape[0])
         # dipole moments
         self.DD = DD
 
@@ -2828,13 +2832,21 @@ class AggregateBase(UnitsManaged, Saveable, OpenSystem):
                     # removed
 
 
-                # we get this in SITE BASIS
-                ham = HH.data
+                # we get this in SITE BASIS, also when the state is requested
+                # inside a basis context of some operator: the populations
+                # refer to the sites, so the Hamiltonian is read and the 
+                # density matrix is created in the site basis
+                with eigenbasis_of(self._site_basis_op):
+                    ham = HH.data
 
-                rho0 = self._thermal_population(temperature,
+                    rho0 = self._thermal_population(temperature,
                                                 subtract=re,
                                                 relaxation_hamiltonian=ham,
                                                 start=start)
+                    rho = DensityMatrix(data=rho0)
+
+                self.rho0 = rho.data
+                return rho
 
             elif relaxation_theory_limit == "weak_coupling":
 
